@@ -352,6 +352,27 @@ pub fn sem_sheet(ws: &Worksheet) -> SheetDump {
             .collect();
         dbg(&v)
     });
+    d.parts.insert("data_validations_2010".into(), {
+        // Excel-2010 (x14) data validations, through value getters
+        let v: Vec<String> = match ws.get_data_validations_2010() {
+            None => Vec::new(),
+            Some(list) => list
+                .get_data_validation_list()
+                .iter()
+                .map(|x| {
+                    format!(
+                        "type={:?} op={:?} f1={:?} f2={:?} sqref={:?}",
+                        x.get_type(),
+                        x.get_operator(),
+                        x.get_formula1().map(|f| f.get_value().get_value().get_address()),
+                        x.get_formula2().map(|f| f.get_value().get_value().get_address()),
+                        x.get_reference_sequence().get_sqref()
+                    )
+                })
+                .collect(),
+        };
+        dbg(&v)
+    });
     d.parts.insert("page_margins".into(), {
         let m = ws.get_page_margins();
         dbg(&(m.get_left(), m.get_right(), m.get_top(), m.get_bottom(), m.get_header(), m.get_footer()))
